@@ -206,11 +206,13 @@ def judge_haze(ctx, sig, lev, wlo, whi, magnitude, label, partial_rule):
                       layer=i, kind=label)
 
 
-def judge_flat(ctx, clear, hazy, lev, bottom, top, mix, cls, **w):
+def judge_flat(ctx, clear, hazy, lev, bottom, top, mix, cls, spec=None, **w):
     sig = sigma_of(hazy, 'FlatMieContribution')
     wlo, whi = window_of(bottom, top, lev)
     judge_haze(ctx, sig, lev, wlo, whi, np.full(sig.shape[1], mix), 'flat', None)
     ctx.check('haze-grey', np.all(sig == sig[:, :1]), kind='flat', **w)
+    if spec is not None:
+        base.oracle(ctx, hazy, spec)       # the declared extinction is actually integrated along every ray
     ctx.check('haze-depth>=clear', np.all(hazy['depth'] >= clear['depth'] * (1 - 1e-13)), kind='flat', **w)
     if cls == 'outside':
         ctx.close('haze-outside-range-changes-nothing', hazy['depth'], clear['depth'], 1e-13, kind='flat', **w)
@@ -227,13 +229,13 @@ def wl_flat(ctx, rng):
     clear, hazy, s2 = run_pair(ctx, spec, {'name': 'FlatMie', 'flat_mix_ratio': mix, 'flat_bottomP': bottom, 'flat_topP': top})
     if clear is None or hazy is None:
         return
-    sig = judge_flat(ctx, clear, hazy, lev, bottom, top, mix, cls)
+    sig = judge_flat(ctx, clear, hazy, lev, bottom, top, mix, cls, spec=s2)
     ctx.sig('flat', spec['nlayers'], cls, round(spec['planet_mass'], 6), round(math.log10(mix), 3))
     ctx.sample({'kind': 'FlatMie', 'class': cls, 'nlayers': spec['nlayers'], 'bottomP': bottom, 'topP': top,
                 'layers_with_extinction': int(np.sum(np.any(sig > 0, axis=1)))})
 
 
-def judge_lee(ctx, clear, hazy, lev, bottom, top, a, q, mix, cls, **w):
+def judge_lee(ctx, clear, hazy, lev, bottom, top, a, q, mix, cls, spec=None, **w):
     sig = sigma_of(hazy, 'LeeMieContribution')
     wn = hazy['wn']
     x = 2.0 * math.pi * a / (1e4 / wn)
@@ -244,6 +246,8 @@ def judge_lee(ctx, clear, hazy, lev, bottom, top, a, q, mix, cls, **w):
     wlo, whi = window_of(bottom, top, lev)
     judge_haze(ctx, sig, lev, wlo, whi, magnitude, 'lee', None)
     nz = np.any(sig != 0, axis=1)
+    if spec is not None:
+        base.oracle(ctx, hazy, spec)       # the declared extinction is actually integrated along every ray
     if np.any(nz):
         ctx.close('lee-wavelength-law', sig[nz], np.tile(magnitude, (int(nz.sum()), 1)), 1e-10, radius=a, Q=q, **w)
     else:
@@ -267,7 +271,7 @@ def wl_lee(ctx, rng):
                                            'lee_mie_bottomP': bottom, 'lee_mie_topP': top})
     if clear is None or hazy is None:
         return
-    sig, nz = judge_lee(ctx, clear, hazy, lev, bottom, top, a, q, mix, cls)
+    sig, nz = judge_lee(ctx, clear, hazy, lev, bottom, top, a, q, mix, cls, spec=s2)
     ctx.sig('lee', spec['nlayers'], cls, round(spec['planet_mass'], 6), round(a, 6))
     ctx.sample({'kind': 'LeeMie', 'class': cls, 'nlayers': spec['nlayers'], 'bottomP': bottom, 'topP': top,
                 'radius_um': a, 'layers_with_extinction': int(nz.sum())})
@@ -377,9 +381,9 @@ def wl_retune(ctx, rng):
         if kind == 'deck':
             judge_deck(ctx, clear, snap, np.array(model.pressureProfile, dtype=float), pc, **w)
         elif kind == 'flat':
-            judge_flat(ctx, clear, snap, lev, bottom, top, mix, cls, **w)
+            judge_flat(ctx, clear, snap, lev, bottom, top, mix, cls, spec=dict(spec, contributions=s2['contributions']), **w)
         else:
-            judge_lee(ctx, clear, snap, lev, bottom, top, a, q, mix, cls, **w)
+            judge_lee(ctx, clear, snap, lev, bottom, top, a, q, mix, cls, spec=dict(spec, contributions=s2['contributions']), **w)
         if r > 0:
             ctx.observe('retune:evaluation-after-write')
     ctx.sig('retune', kind, spec['nlayers'], rounds, round(spec['planet_mass'], 6))
